@@ -489,7 +489,7 @@ def _pmul(a, b):
     out = {}
     for m1, c1 in a.items():
         for m2, c2 in b.items():
-            m = tuple(sorted(m1 + m2, key=repr))
+            m = tuple(sorted(m1 + m2, key=hash))
             out[m] = out.get(m, 0.0) + c1 * c2
     return {m: c for m, c in out.items() if abs(c) > 1e-15}
 
@@ -523,7 +523,7 @@ def poly_equal(a, b, tol=1e-9):
 
 def show_poly(p, show):
     parts = []
-    for m, c in sorted(p.items(), key=lambda kv: repr(kv[0])):
+    for m, c in sorted(p.items(), key=lambda kv: hash(kv[0])):
         parts.append(f'{c:+.6g}' + ''.join('*' + show(x, maxd=2)[:30] for x in m))
     return ' '.join(parts) or '0'
 
